@@ -59,6 +59,7 @@ type drv struct {
 	up    *upstream
 	nameCases int
 	dirty     bool
+	slow      []string
 	reported  map[string]bool
 }
 
@@ -71,8 +72,8 @@ func phase(what string) {
 }
 
 func (d *drv) fail(what, text string) {
-	if len(text) > 1500 {
-		text = text[:1500] + "..."
+	if len(text) > 6000 {
+		text = text[:6000] + "..."
 	}
 	d.rep.Fail(len(d.cases), what, text)
 }
@@ -99,6 +100,9 @@ func (d *drv) pick() *fx {
 // call runs one request under the deadline and the panic monitor.  mustErr: the request is
 // malformed by construction and has to be answered with an error status.
 func (d *drv) call(text string, mustErr bool, fn func(ctx context.Context) outcome) outcome {
+	if len(text) > 1500 {
+		text = text[:1500] + "..."
+	}
 	d.rep.Evaluations++
 	mon.setCur(text)
 	ctx, cancel := context.WithTimeout(context.Background(), callTimeout)
@@ -120,7 +124,7 @@ func (d *drv) call(text string, mustErr bool, fn func(ctx context.Context) outco
 		o = outcome{hang: true, code: "NO-RETURN"}
 	}
 	if o.hang {
-		// what the server's goroutines were doing at that moment (blocked, or merely slow?)
+		// what the server's goroutines are doing at this moment
 		_, stacks := brGoroutines()
 		var st []string
 		for sig, g := range stacks {
@@ -128,7 +132,24 @@ func (d *drv) call(text string, mustErr bool, fn func(ctx context.Context) outco
 				st = append(st, firstLines(g, 16))
 			}
 		}
-		d.fail("hang: the call did not finish within its deadline ("+o.code+")", text+"\nserver goroutines at that moment:\n"+strings.Join(st, "\n--\n"))
+		if len(text) > 700 {
+			text = text[:700] + "..."
+		}
+		diag := text + "\nserver goroutines when the deadline expired:\n" + strings.Join(st, "\n--\n")
+		// blocked, or merely slow (parallel shards and builds can starve the process for seconds)?
+		// Give the handler another 30 s to finish by itself; only one that is still there is a hang.
+		t1 := time.Now()
+		for time.Since(t1) < 30*time.Second && (len(mon.inflightList()) > 0 || (o.code == "NO-RETURN" && len(ch) == 0)) {
+			time.Sleep(50 * time.Millisecond)
+		}
+		if len(mon.inflightList()) > 0 || (o.code == "NO-RETURN" && len(ch) == 0) {
+			d.fail("hang: the call did not finish within its deadline ("+o.code+") nor in the 30 s after it", diag)
+		} else {
+			d.rep.Count("slow-call-finished-after-deadline")
+			if len(d.slow) < 2 {
+				d.slow = append(d.slow, fmt.Sprintf("slow (finished %.1f s after the %v deadline): %s", time.Since(t1).Seconds(), callTimeout, diag))
+			}
+		}
 	}
 	for _, p := range mon.takePanics() {
 		d.fail("panic in "+p.where+": "+p.val, text+"\n"+firstLines(p.stack, 24))
@@ -357,6 +378,7 @@ func abuseDriver(seed uint64, n int, outV, outJSON string, args []string) {
 			}
 		}
 	}
+	d.rep.Samples = append(d.rep.Samples, d.slow...)
 	d.rep.Cases = len(d.cases)
 	WriteCases(outV, "Model.Keys Model.ByteStream Model.Protocols", "acase", "Model.Protocols.case_ok", d.cases)
 	d.rep.Write(outJSON)
